@@ -55,6 +55,15 @@ class RecordingDIMSE(DIMSEServiceProvider):
         self.get_calls = 0
 
     def send_msg(self, primitive, context_id):
+        # run the real conversion + fragmentation so that a primitive the
+        # real provider could not put on the wire fails here the same way
+        from pynetdicom.dimse import _RQ_TO_MESSAGE, _RSP_TO_MESSAGE
+
+        tbl = _RQ_TO_MESSAGE if primitive.MessageIDBeingRespondedTo is None else _RSP_TO_MESSAGE
+        msg = tbl[primitive.__class__]()
+        msg.primitive_to_message(primitive)
+        for _ in msg.encode_msg(context_id, 16382):
+            pass
         self.sent.append((context_id, snapshot(primitive)))
         self.sent_raw.append((context_id, copy.copy(primitive)))
         if self.on_send:
